@@ -389,9 +389,12 @@ class _Fn:
         return True
 
 
-def before_inliner(tree: ast.Module) -> int:
+def before_inliner(tree: ast.Module, keep_expression_helpers: bool = True) -> int:
     n = 0
     for fn in [x for x in ast.walk(tree) if isinstance(x, FUNC)]:
+        body = [s_ for s_ in fn.body if not (isinstance(s_, ast.Expr) and isinstance(s_.value, ast.Constant))]
+        if keep_expression_helpers and len(body) == 1 and isinstance(body[0], ast.Return):
+            continue        # an abbreviation of one expression: the inliner substitutes it where it is used; rewritten afterwards
         n += hoist_walrus(fn.body)
         f = _Fn(fn)
         f.block(fn.body)
@@ -718,8 +721,41 @@ def fold_message_fields(fn) -> int:
     return n
 
 
+def fold_found_tests(fn) -> int:
+    """`next((x for x in XS if C), None) is not None`  ->  `any(C for x in XS)`   (and `is None` -> `not any(..)`), when the element
+    handed out is the loop variable itself and C dereferences it (`x.done()`, `x.name == ..`): an element that is None would raise in C
+    in either spelling, so "found something" and "some element satisfies C" are the same test."""
+    n = 0
+
+    class T(ast.NodeTransformer):
+        def visit_Compare(self, c: ast.Compare):
+            nonlocal n
+            self.generic_visit(c)
+            if len(c.ops) != 1 or not isinstance(c.ops[0], (ast.Is, ast.IsNot)) or not (isinstance(c.comparators[0], ast.Constant) and c.comparators[0].value is None):
+                return c
+            v = c.left
+            if not (isinstance(v, ast.Call) and isinstance(v.func, ast.Name) and v.func.id == 'next' and len(v.args) == 2 and not v.keywords and
+                    isinstance(v.args[1], ast.Constant) and v.args[1].value is None and isinstance(v.args[0], ast.GeneratorExp) and len(v.args[0].generators) == 1):
+                return c
+            g = v.args[0].generators[0]
+            if not (isinstance(g.target, ast.Name) and isinstance(v.args[0].elt, ast.Name) and v.args[0].elt.id == g.target.id and g.ifs and not g.is_async):
+                return c
+            cond = g.ifs[0] if len(g.ifs) == 1 else ast.BoolOp(ast.And(), list(g.ifs))
+            if not any(isinstance(a_, ast.Attribute) and isinstance(a_.value, ast.Name) and a_.value.id == g.target.id for a_ in ast.walk(cond)):
+                return c
+            anyc = ast.Call(ast.Name('any', ast.Load()), [ast.GeneratorExp(cond, [ast.comprehension(g.target, g.iter, [], 0)])], [])
+            n += 1
+            return ast.copy_location(anyc if isinstance(c.ops[0], ast.IsNot) else ast.UnaryOp(ast.Not(), anyc), c)
+    T().visit(fn)
+    if n:
+        ast.fix_missing_locations(fn)
+    return n
+
+
 def after_inliner(trees: dict, known_constants: set) -> list[str]:
     log = fold_new_constants(trees, known_constants)
+    for tree in trees.values():
+        before_inliner(tree, keep_expression_helpers=False)     # what substitution brought in, and the expression helpers that are left
     uniq = _unique_defs(trees)
     for rel, tree in trees.items():
         k = 0
@@ -727,6 +763,7 @@ def after_inliner(trees: dict, known_constants: set) -> list[str]:
             k += sink_selected_callee(fn.body)
             k += fold_partials(fn, uniq)
             k += fold_message_fields(fn)
+            k += fold_found_tests(fn)
         if k:
             ast.fix_missing_locations(tree)
             log.append(f'{k} partial applications / selected callees folded in {rel}')
